@@ -17,6 +17,7 @@ NAMES = ['cdilate', 'cerode', 'tophat_open', 'tophat_close', 'subm', 'open_u8', 
          'convolve_out', 'convolve1d_out', 'gaussian_filter_out', 'median_filter_out', 'rank_filter_out', 'mean_filter_out',
          'template_match_out', 'label_out', 'borders_out', 'hitmiss_out', 'majority_filter_out', 'regmax_out', 'locmin_out',
          'zoom_out', 'shift_out', 'spline_filter_out',
+         'otsu_u16', 'rc_u16', 'fullhistogram_u16',
          'stretch', 'stretch_rgb', 'rgb2xyz', 'rgb2lab', 'rgb2grey', 'rgb2sepia', 'xyz2rgb', 'as_rgb']
 
 
@@ -101,7 +102,12 @@ def register(reg, g, mh, np):
     reg('hitmiss_u8', ['b8', 'hm'], lambda I: mh.hitmiss(g(I, 'b8'), g(I, 'hm').T.copy()))
     # C15
     reg('euler_4', ['b'], lambda I: mh.euler(g(I, 'b'), 4))
-    # C16
+    # C16 on 16-bit images (65536-bin histograms: the per-call tables are large enough for calls to overlap)
+    if not hasattr(c12.Inputs, '_mk_f16'):
+        c12.Inputs._mk_f16 = lambda self: (self.get('f').astype(np.uint16) * 257 + self._rs(12).randint(0, 200, (self.size,) * 2).astype(np.uint16))
+    reg('otsu_u16', ['f16'], lambda I: mh.otsu(g(I, 'f16')))
+    reg('rc_u16', ['f16'], lambda I: mh.rc(g(I, 'f16')))
+    reg('fullhistogram_u16', ['f16'], lambda I: mh.fullhistogram(g(I, 'f16')))
     reg('otsu_ignore_zeros', ['f'], lambda I: mh.otsu(g(I, 'f'), True))
     reg('bernsen', ['f'], lambda I: mh.thresholding.bernsen(g(I, 'f'), 2, 30))
     reg('gbernsen', ['f'], lambda I: mh.thresholding.gbernsen(g(I, 'f'), np.ones((3, 3), bool), 30, 128))
